@@ -136,6 +136,38 @@ Theorem C10_transform_SIS_histories_legal :
   good_histb [stS; stI] sis_moves tmin h = true.
 Proof. exact transform_SIS_good. Qed.
 
+(* the objects the simulators construct (transform of the infection / recovery tables,
+   default history ([tmin],['S'])) ARE the object of a log: when the tables relate to the
+   initial statuses and the events of each node as the simulators fill them
+   ([sir_tables_ok] / [sis_tables_ok]; initially infected or recovered nodes carry the
+   time tmin) and the log has strictly increasing times after tmin ([log_okb]), every
+   node has the history that is the projection of the log, so C10_log_lemma applies
+   verbatim: summary = the running counts of the log *)
+Theorem C10_investigation_SIR_is_log_object :
+  forall nodes tmin init log inf rec,
+  log_okb nodes [stS; stI; stR] tmin init log = true ->
+  NoDup (map fst inf) -> NoDup (map fst rec) ->
+  (forall u, In u nodes -> sir_tables_ok tmin (init u) (events_of_node log u) (assoc inf u) (assoc rec u)) ->
+  (forall u, In u nodes -> hist_of (investigation_SIR nodes tmin inf rec) u = Ok (project tmin init log u)) /\
+  summary (investigation_SIR nodes tmin inf rec) None = Ok (log_arrays nodes [stS; stI; stR] tmin init log).
+Proof. exact investigation_SIR_summary. Qed.
+
+Theorem C10_investigation_SIS_is_log_object :
+  forall nodes tmin init log inf rec,
+  log_okb nodes [stS; stI] tmin init log = true -> NoDup (map fst inf) ->
+  (forall u, In u nodes -> sis_tables_ok tmin (init u) (events_of_node log u) (assoc inf u) (rts_of rec u)) ->
+  (forall u, In u nodes -> hist_of (investigation_SIS nodes tmin inf rec) u = Ok (project tmin init log u)) /\
+  summary (investigation_SIS nodes tmin inf rec) None = Ok (log_arrays nodes [stS; stI] tmin init log).
+Proof. exact investigation_SIS_summary. Qed.
+
+(* objects that agree on the node list, the possible statuses and every node's history
+   have the same summary *)
+Theorem C10_summary_depends_on_histories_only :
+  forall iv iv', iv_nodes iv = iv_nodes iv' -> possible_statuses iv = possible_statuses iv' ->
+  (forall u, In u (iv_nodes iv) -> hist_of iv u = hist_of iv' u) ->
+  summary iv None = summary iv' None.
+Proof. exact summary_ext. Qed.
+
 (* ---------------- non-vacuity ---------------- *)
 (* three nodes, SIR: 0 is infected at 1/2 and recovers at 2; 1 starts infected and
    recovers at 1/2 (a shared time); 2 never changes *)
@@ -155,6 +187,23 @@ Example C10_ex_summary :
   consistent_b ex_iv (log_arrays [0; 1; 2]%N [stS; stI; stR] 0 ex_init ex_log) 0 [(stS, stI); (stI, stR)] = true /\
   consistent_b ex_iv [(0, [2; 1; 0]%Z); (1 # 2, [2; 1; 0]%Z)] 0 [(stS, stI); (stI, stR)] = false.
 Proof. vm_compute. repeat split. Qed.
+
+(* the tables a simulator would hand over for ex_log: node 1 initially infected *)
+Definition ex_inf : list (node * Q) := [(1%N, 0); (0%N, 3 # 4)].
+Definition ex_rec : list (node * Q) := [(1%N, 1 # 2); (0%N, 2 # 1)].
+Example C10_ex_tables :
+  (forall u, In u [0; 1; 2]%N -> sir_tables_ok 0 (ex_init u) (events_of_node ex_log u) (assoc ex_inf u) (assoc ex_rec u)) /\
+  summary (investigation_SIR [0; 1; 2]%N 0 ex_inf ex_rec) None = Ok (log_arrays [0; 1; 2]%N [stS; stI; stR] 0 ex_init ex_log) /\
+  sis_tables_ok 0 stI [(1, stS); (2 # 1, stI)] (Some [0; 2 # 1]) [1].
+Proof.
+  split; [|split].
+  - intros u [Hu|[Hu|[Hu|[]]]]; subst u.
+    + right. right. left. split; [reflexivity|]. exists (3 # 4), (2 # 1). repeat split.
+    + right. right. right. right. left. split; [reflexivity|]. exists (1 # 2). repeat split.
+    + left. repeat split.
+  - vm_compute. reflexivity.
+  - right. right. split; [reflexivity|]. exists [2 # 1]. split; reflexivity.
+Qed.
 
 (* possible_statuses not given: R, then S, then I appear first in this order *)
 Example C10_ex_default_statuses :
@@ -190,6 +239,10 @@ Print Assumptions C10_transform_SIR_spec.
 Print Assumptions C10_transform_SIR_histories_legal.
 Print Assumptions C10_transform_SIS_spec.
 Print Assumptions C10_transform_SIS_histories_legal.
+Print Assumptions C10_investigation_SIR_is_log_object.
+Print Assumptions C10_investigation_SIS_is_log_object.
+Print Assumptions C10_summary_depends_on_histories_only.
+Print Assumptions C10_ex_tables.
 Print Assumptions C10_ex_transform.
 Print Assumptions C10_ex_hypotheses.
 Print Assumptions C10_ex_summary.
